@@ -15,16 +15,27 @@ Theorem C04_ids_range : forall n, 1 <= idgen_next n <= 9007199254740992.
 Proof. exact idgen_next_range. Qed.
 Print Assumptions C04_ids_range.
 
-(* the (k+1)-th id of a session object is (k mod 2^53) + 1: sequential from 1, wrapping to 1 after 2^53 *)
+(* the (k+1)-th id of a session is (k mod 2^53) + 1: sequential from 1, wrapping to 1 after 2^53 *)
 Theorem C04_ids_closed_form : forall k, idgen_iter (S k) = N.of_nat k mod 9007199254740992 + 1.
 Proof. exact idgen_iter_closed. Qed.
 Print Assumptions C04_ids_closed_form.
 
-(* the i-th request message handed to the transport in ANY history carries the i-th generator value *)
-Theorem C04_ids : forall fl cfg ops,
-  request_ids (trace fl cfg ops) = map idgen_iter (seq 1 (length (request_ids (trace fl cfg ops)))).
+(* request ids are in session scope.  [request_ids] projects a history to its request messages ([IdReq i]: handed to
+   the transport, whether send() returned, raised or dropped it) and its HELLOs ([IdJoin]: join() starts a new session
+   -- in every life of the object, since 293fd751).  In ANY history the request messages between a HELLO and the next
+   HELLO, and every prefix of them, carry 1, 2, 3, ...: the first request of every session carries id 1 *)
+Theorem C04_ids : forall fl cfg ops a b c,
+  request_ids (trace fl cfg ops) = a ++ IdJoin :: b ++ c -> forallb is_req b = true ->
+  b = map (fun j => IdReq (idgen_iter j)) (seq 1 (length b)).
 Proof. exact request_ids_sequential. Qed.
 Print Assumptions C04_ids.
+
+(* ... likewise the requests of an object that has not said HELLO yet *)
+Theorem C04_ids_unjoined : forall fl cfg ops b c,
+  request_ids (trace fl cfg ops) = b ++ c -> forallb is_req b = true ->
+  b = map (fun j => IdReq (idgen_iter j)) (seq 1 (length b)).
+Proof. exact request_ids_sequential_unjoined. Qed.
+Print Assumptions C04_ids_unjoined.
 
 (* the request-type codes (regenerated from message.py) that the ERROR dispatch compares are pairwise distinct *)
 Theorem C04_type_codes_distinct : forall a b, kind_code a = kind_code b -> a = b.
@@ -148,17 +159,15 @@ Print Assumptions C04_reply_during_send.
 (* transport.send() can fail in three ways (SerializationError, PayloadExceededError, TransportLost); [AFail e a] is
    the API call [a] whose send() raises [e].  For each of the six request kinds ([api_request]) and each [e]: the call
    raises [e], nothing reaches the wire, the id is consumed, no future gets a result, registrations and the
-   life-cycle are untouched; call() and publish() take their record back ([keeps_record] = false: the table is as
-   before, whatever it contained), subscribe / register / unsubscribe / unregister leave theirs (no try/except in
-   the code: KNOWN defect, see the refutation below). *)
+   life-cycle are untouched, and the record is taken back: the table is as before, whatever it contained
+   (call() and publish() always did that; subscribe / register / unsubscribe / unregister since 0e55772a). *)
 Theorem C04_failed_send : forall fl cfg s e a k co t,
   transport s = true -> failnext s = None -> api_request s a = Some (k, co, t) ->
   let '(s1, o1) := step fl cfg s (AFail e a) in
   (exists m, o1 = [SendFailed m; ApiRaised e])
   /\ next_id s1 = idgen_next (next_id s) /\ done s1 = done s /\ failnext s1 = None /\ lcore s1 = lcore s
   /\ (k <> KUnsubscribe -> subs s1 = subs s) /\ regs s1 = regs s
-  /\ pend s1 = if keeps_record k then put_req (mkreq k (idgen_next (next_id s)) (next_fut s) co t) (pend s)
-               else remove_req k (idgen_next (next_id s)) (pend s).
+  /\ pend s1 = remove_req k (idgen_next (next_id s)) (pend s).
 Proof. exact failed_send. Qed.
 Print Assumptions C04_failed_send.
 
@@ -174,23 +183,39 @@ Theorem C04_failed_send_publish_noack : forall fl cfg s e uri a kw o,
 Proof. exact failed_send_publish_noack. Qed.
 Print Assumptions C04_failed_send_publish_noack.
 
-(* call / publish: a later router message bearing the id the failed call consumed is a protocol violation *)
+(* all six kinds: a later router message bearing the id the failed call consumed is a protocol violation *)
 Theorem C04_failed_send_reply_is_violation : forall fl cfg s e a r v k co t c,
   transport s = true -> sid s = Some v -> failnext s = None ->
-  api_request s a = Some (k, co, t) -> keeps_record k = false ->
+  api_request s a = Some (k, co, t) ->
   reply_spec r = Some (k, idgen_next (next_id s), c) -> find_req k (idgen_next (next_id s)) (pend s) = None ->
   let '(s1, o1) := step fl cfg s (AFail e a) in
   (exists m, o1 = [SendFailed m; ApiRaised e]) /\ pend s1 = pend s /\ step fl cfg s1 r = (s1, [Raised XProtocolError]).
 Proof. exact failed_send_reply_is_violation. Qed.
 Print Assumptions C04_failed_send_reply_is_violation.
 
-(* FALSE for the four other kinds: register() raises PayloadExceededError, the router's REGISTERED bearing that id is
-   accepted silently and creates a Registration for the call that failed *)
-Theorem C04_failed_send_reply_refuted_record_left :
-  exists cfg ops, In (ApiRaised XPayloadExceeded) (trace Tx cfg ops) /\ ~ In (Raised XProtocolError) (trace Tx cfg ops)
-                  /\ regs (final Tx cfg ops) <> [].
-Proof. exact failed_send_reply_refuted_record_left. Qed.
-Print Assumptions C04_failed_send_reply_refuted_record_left.
+(* regression example: before 0e55772a the record of the failed register() stayed, REGISTERED 1 58 was accepted
+   silently and created a Registration for the call that had raised *)
+Theorem C04_failed_send_register_example :
+  let ops := [OOpen; RWelcome 1; AFail XPayloadExceeded (ARegister 1 None); RRegistered 1 58] in
+  In (ApiRaised XPayloadExceeded) (trace Tx default_cfg ops) /\ In (Raised XProtocolError) (trace Tx default_cfg ops)
+  /\ regs (final Tx default_cfg ops) = [] /\ pend (final Tx default_cfg ops) = [].
+Proof. exact failed_send_register_example. Qed.
+Print Assumptions C04_failed_send_register_example.
+
+(* ---- lives ---- *)
+(* FALSE across lives ("own reply"): join() starts the ids of the new session at 1 again but keeps the request tables.
+   A record that survived the previous life (the user's onDisconnect does not call the default sweep) is matched by
+   the new session's RESULT 1, which belongs to no request of that session: the old call completes with it *)
+Theorem C04_own_reply_refuted_stale_record_next_life :
+  exists cfg ops, In (Completed 0 (ROk VNone)) (trace Tx cfg ops) /\ ~ In (Raised XProtocolError) (trace Tx cfg ops).
+Proof.
+  exists {| u_connect := CnJoin; u_welcome := WlNone; u_challenge := ChRaise; u_join_raises := false;
+            u_leave_super := true; u_leave_raises := false; u_disc_super := false; u_disc_raises := false;
+            t_lenient := false |},
+         [OOpen; ACall 1 [] [] None; OLost false; OOpen; RWelcome 2; RResult 1 false {| p_args := None; p_kw := None |}].
+  vm_compute. split; [auto 12|]. intro H; repeat (destruct H as [H|H]; try discriminate H); contradiction.
+Qed.
+Print Assumptions C04_own_reply_refuted_stale_record_next_life.
 
 (* its freshness hypothesis holds in every reachable state *)
 Theorem C04_fresh_future_not_done : forall fl cfg ops, is_done (final fl cfg ops) (next_fut (final fl cfg ops)) = false.
